@@ -245,6 +245,12 @@ def case_stiff(rng, tier):
             sums[k][np.ix_(idx, idx)] += Ci
             sc = np.abs(Ai); sc[:ns, :ns] += np.abs(A0)
             scales[k][np.ix_(idx, idx)] += sc
+            if k == 1 and s['kind'] == 'blade1d':
+                from ..oracles import stiff1d
+                o = stiff1d.contribution(d, bay_i, 1, gen.apply_flags)
+                sck = o['S'] + 1e-6 * (o['S'].max() + np.abs(Ci).max()) + 1e-300
+                c.judge('1-D blade geometric stiffness = Fx * int(w,x w,x) along the stiffener line', float((np.abs(Ci[:ns, :ns] - o['ref']) / sck).max()), 1e-9,
+                        data={'Fx': 0.37, 'ys': s['ys']})
             if k != 1:
                 nm = 'stiffness' if k == 0 else 'mass'
                 c.expect('stiffener %s contribution symmetric' % nm, np.array_equal(Ci, Ci.T) or rel(Ci, Ci.T) < 1e-12)
@@ -252,7 +258,7 @@ def case_stiff(rng, tier):
                 if s['kind'] == 'blade1d':
                     mech = judge_blade1d(c, d, s, bay_i, Ci[:ns, :ns], k)
                 ev = np.linalg.eigvalsh((Ci + Ci.T) / 2)
-                bound = 1e-8 * float(np.linalg.norm(sc, 2))       # eigenvalue round-off of the penalty-joined blocks: 1e-9 reached in the thorough tier
+                bound = 1e-8 * max(1.0, d['b'] / s['bb'] if 'bb' in s else 1.0) * float(np.linalg.norm(sc, 2))       # round-off of the penalty-joined blocks and of the strip integrals (sub-interval tables: grows with b / strip width)
                 c.judge('stiffener %s contribution positive semi-definite' % nm, max(0.0, -ev.min()), bound, mechanism=mech,
                         data={'kind': s['kind'], 'min': ev.min(), 'max': ev.max()})
     for k, (nm, Aa, A0) in enumerate((('k0', Ka, K0), ('kG0', Ga, G0), ('kM', Ma, M0))):
